@@ -254,7 +254,8 @@ impl TransportVisitor for V {
                 }
             }
             if nb.is_empty() {
-                for l in (0..5).filter(|l| !self.pcm_only || *l >= 2) {
+                // (The 40-period transfer only as the first operation of the transfer alphabet.)
+                for l in (0..6).filter(|l| (!self.pcm_only || *l >= 2) && (*l < 5 || (self.pcm_only && step == 0))) {
                     menu.push((3, 0, l)); // blocking transfer on stream 0
                 }
             }
@@ -327,7 +328,8 @@ impl TransportVisitor for V {
                     // Blocking transfer; the device serves in order at a chosen pace.
                     let per = period[0];
                     let p = per.unwrap_or(4) as usize;
-                    let len = [0usize, p - 1 + (p == 1) as usize, p, 2 * p + 1, p + 1][b];
+                    // (The last one: 40 periods and a bit, more than the transmit queue holds.)
+                    let len = [0usize, p - 1 + (p == 1) as usize, p, 2 * p + 1, p + 1, 40 * p + 1][b];
                     let frames: Vec<u8> = (0..len).map(|i| (step as u8) << 4 | (i as u8 & 15)).collect();
                     let fail_at = deviate(4, "PCM status of one period (default: all OK)");
                     // Device pace: serves each period when notified; or only while the driver
@@ -382,7 +384,10 @@ impl TransportVisitor for V {
                             }
                         })));
                     }
+                    // (The spin count runs over the whole call: one wait per period at the late paces.)
+                    co.borrow_mut().spin_horizon = 80 + 4 * (len / p.max(1) + 1) as u64;
                     let r = crate::util::catch(|| snd.pcm_xfer(0, &frames));
+                    co.borrow_mut().spin_horizon = 80;
                     cosim::install(&co);
                     if co.borrow_mut().held_count(2) != 0 && nb.is_empty() {
                         // Not a C20 clause by itself, but everything below assumes an empty queue.
